@@ -66,9 +66,9 @@ var corpus = []corpusCase{
 	fixed("fragment on the query root", &doc{
 		ops:   []*opDef{q("H", sp("R"), fld("__typename"))},
 		frags: []*fragDef{{name: "R", cond: "Query", sels: []*sel{fld("me", fld("login"))}}}}),
-	fixed("known: field key equals fragment field name", &doc{ops: []*opDef{q("K1", fld("node", fld("__typename"), fa("User", "id"), on("User", fld("name"))))}}),
-	fixed("known: field key differs from fragment field name in case only", &doc{ops: []*opDef{q("K2", fld("node", fld("__typename"), fa("user", "id"), on("User", fld("name"))))}}),
-	fixed("known: typename__ next to __typename", &doc{ops: []*opDef{q("K3", fld("node", fld("__typename"), fa("typename__", "id")))}}),
+	fixed("repaired: field key equals fragment field name", &doc{ops: []*opDef{q("K1", fld("node", fld("__typename"), fa("User", "id"), on("User", fld("name"))))}}),
+	fixed("repaired: field key differs from fragment field name in case only", &doc{ops: []*opDef{q("K2", fld("node", fld("__typename"), fa("user", "id"), on("User", fld("name"))))}}),
+	fixed("repaired: typename__ next to __typename", &doc{ops: []*opDef{q("K3", fld("node", fld("__typename"), fa("typename__", "id")))}}),
 	{note: "known: enum constants that differ only in letter case", build: func() (*schemaDef, *doc, string) {
 		s := fixedSchema()
 		s.byName["Color"].values = []string{"RED", "red", "GREEN"}
@@ -88,6 +88,11 @@ var corpus = []corpusCase{
 		}
 		return s, &doc{ops: []*opDef{q("K5", fld("me", fld("color")))}}, "known: enum named like a generated <Op>Data type"
 	}},
+	fixed("repaired: a member that needs two underscores (keys User and User_, inline fragment on User)", &doc{
+		ops: []*opDef{q("K6", fld("node", fld("__typename"), fa("User", "id"), fa("User_", "id"), on("User", fld("name"))))}}),
+	fixed("repaired: inline fragment on User next to a spread of a fragment named User", &doc{
+		ops:   []*opDef{q("K7", fld("node", fld("__typename"), on("User", fld("name")), sp("User")))},
+		frags: []*fragDef{{name: "User", cond: "User", sels: []*sel{fld("login")}}}}),
 	fixed("invalid: unknown field", &doc{ops: []*opDef{q("I1", fld("node", fld("nope")))}}),
 	fixed("valid but rejected by the generator: fragments on an interface without __typename", &doc{ops: []*opDef{q("I2", fld("node", on("User", fld("name"))))}}),
 }
